@@ -312,6 +312,7 @@ BW_MidiSequencer::BW_MidiSequencer() :
     m_fullSongTimeLength(0.0),
     m_postSongWaitDelay(1.0),
     m_loopStartTime(-1.0),
+    m_loopStartMarker(false),
     m_loopEndTime(-1.0),
     m_tempoMultiplier(1.0),
     m_atEnd(false),
@@ -575,6 +576,7 @@ void BW_MidiSequencer::buildSmfSetupReset(size_t trackCount)
 {
     m_fullSongTimeLength = 0.0;
     m_loopStartTime = -1.0;
+    m_loopStartMarker = false;
     m_loopEndTime = -1.0;
     m_loopFormat = Loop_Default;
     m_trackDisable.clear();
@@ -853,6 +855,8 @@ bool BW_MidiSequencer::buildSmfTrackData(const std::vector<std::vector<uint8_t> 
         }
     }
 
+    // A file with a loopEnd marker only loops from its begin (the start time is 0 then, not -1)
+    m_loopStartMarker = gotGlobalLoopStart && !m_loop.invalidLoop;
     buildTimeLine(temposList, loopStartTicks, loopEndTicks);
 
     return true;
@@ -1006,7 +1010,7 @@ void BW_MidiSequencer::buildTimeLine(const std::vector<MidiEvent> &tempos,
     m_loop.loopsCount = m_loopCount;
     m_loop.loopsLeft = m_loopCount;
     // The song begin is the loop start unless a (valid) loopStart marker follows
-    m_loop.caughtStart = (m_loopStartTime < 0.0);
+    m_loop.caughtStart = !m_loopStartMarker;
 
     /********************************************************************************/
     // Find and set proper loop points
@@ -1471,7 +1475,7 @@ bool BW_MidiSequencer::processEvents(bool isSeek)
 
         // Without a (valid) loopStart marker the loop starts where the song starts:
         // the pass that begins now goes through the loop start again
-        if(jumped && m_loopStartTime < 0.0)
+        if(jumped && !m_loopStartMarker)
             m_loop.caughtStart = true;
     }
 
@@ -2296,7 +2300,7 @@ void BW_MidiSequencer::rewind()
     m_loop.loopsCount = m_loopCount;
     m_loop.reset();
     // The song begin is the loop start unless a (valid) loopStart marker follows
-    m_loop.caughtStart  = (m_loopStartTime < 0.0);
+    m_loop.caughtStart  = !m_loopStartMarker;
     m_loop.temporaryBroken = false;
     m_time.reset();
 }
